@@ -73,4 +73,39 @@ PROPS = {
         "level_text": "Theorems (Props/C28.lean, all states): a tracked permitted read marks READ at exactly that address; a tracked non-strict write that takes effect marks WRITTEN and marks MODIFIED exactly when the stored Word (value or mask) changes, no other address is touched; untracked accesses (host contexts), accesses rejected by the privilege check and writes no device accepts leave the observer unchanged; step_in and run_while start from the empty observer. With C08's theorems (each instruction's accesses are readMem/writeMem at the ISA addresses with the tracking default context) this gives the property per step. Correspondence: after every step/run the implementation's observer (get_mem_accesses for all 65536 addresses, or take_mem_accesses) is compared with the model's, with tracked and untracked host accesses interleaved.",
         "level_note": BASE_NOTE,
     },
+    "C34": {
+        "sub": "c34", "functional": True,
+        "status": "full for every sample stream: gap between consecutive interrupts = the sample drawn (so within [lo,hi], exactly n for an exact count, n = 0 included after fix F20), first interrupt within max+1 polls, recurrence, disabled timers silent, determinism",
+        "assumptions": ["StdRng's random_range returns values inside the range (the samples are taken from the real generator and passed to the model)", "F20 repaired in /repo (fix: commit 89a5e6b): a sampled interval of 0 fires on the reload poll"],
+        "level_text": "Theorems over every timer state and every sample stream (Props/C34.lean): with the countdown at 0 and next sample n the timer is silent for exactly n polls and fires on the next (gap_is_sample), iterated over any number of rounds (gaps_are_samples), hence every gap lies in [lo,hi] when the samples do; first interrupt after enable/reset within max+1 polls; a disabled timer never fires and its countdown does not move; the firing sequence is a function of the samples. Correspondence: standalone TimerDevice with random exact counts/ranges (incl. 0, exclusive bounds, huge), seeds, enable/disable, reset_remaining, io_reset, set_range/set_exact mid-run; remaining time and fire/none compared after every one of ~600k ops; timers inside the simulator are exercised by C10/C31.",
+        "level_note": BASE_NOTE + "StdRng is not modelled: the model consumes the samples the implementation drew.",
+    },
+    "C32": {
+        "sub": "c32", "functional": True,
+        "status": "full: add_ok_iff, id = devices ever added (never reused), remove frees exactly the device's ports (fixed ids keep theirs), internal-register precedence, device dispatch by port table, unowned writes leave memory unchanged, mmap_ok_iff, DevInv for every op (C16)",
+        "assumptions": ["recording devices behave as harness/src/simx.rs Recorder (mirrored by Device.recorder)"],
+        "level_text": "Theorems for every handler state and op (Props/C32.lean + C16.lean): add_device succeeds iff fewer than 2^16 devices were ever added and every requested port is an I/O address currently unowned, returns the count of devices ever added (ids strictly increase; removal never shrinks the list); remove_device of a non-fixed id frees exactly its ports, ids 0/1/2 keep theirs; a read/write at an I/O address goes to the mapped internal register without consulting devices, else to the device named by the port table, else nowhere (unowned port: read unanswered, write refused, memory unchanged); mmap_internal succeeds iff the address is in the I/O page and unmapped. Correspondence: all op sequences up to length 3 (thorough 4) over an 18-op alphabet and random sequences up to length 40, probe reads/writes, every recording device's call log and the register map compared.",
+        "level_note": BASE_NOTE,
+    },
+    "C29": {
+        "sub": "c29", "functional": True,
+        "status": "full: copy_obj_block pointwise for any start/data (wrapping), load = fold over blocks with registers/PC/PSR untouched and externals rejected, new simulator memory/registers characterised against the regenerated OS image",
+        "assumptions": ["block data length <= 2^16 (both object formats store a u16 length)"],
+        "level_text": "Theorems (Props/C29.lean): for every memory, start address and block of at most 2^16 words, copy_obj_block sets start+i (mod 2^16) to the initialised word, or clears the mask of a reserved cell keeping its data, and leaves every other cell unchanged (proved by induction, wrap-around included); load_obj_file is the fold of that over the blocks, leaves registers, PC, PSR, saved SP and counters alone and rejects files with externals; Simulator::new holds the OS image (Gen/OsImage.lean, regenerated from /repo on every run) at its addresses, initialised zeros in the I/O page and uninitialised filler values elsewhere. Correspondence: generated images assembled by the real assembler (blocks at x0000, ending at xFE00, .blkw gaps), loaded repeatedly and after execution into simulators with different fills; full-memory hash incl. masks compared after each load.",
+        "level_note": BASE_NOTE + "The OS image module is produced by the translator tools/gen_os_image.py from /repo's own assembler output.",
+    },
+    "C30": {
+        "sub": "c30", "functional": True,
+        "status": "full for the model (reset = new with current flags + kept configuration + io_reset of each device); MCR pointer identity is an implementation observable checked by the harness only through behaviour",
+        "assumptions": ["deterministic initialisation strategy (Known / Seeded)"],
+        "level_text": "Theorems (Props/C30.lean): after reset, memory, registers, PC, PSR, saved SP, frame depth and list, subroutine definitions, instruction count, pause status, prefetch flag, allocation list and observer equal those of a new simulator with the current flags; flags, breakpoints, MCR value, internal-register mappings and the port table are kept, the device count is unchanged and each device is io_reset of itself (keyboard cleared + interrupts off, display cleared, timer redraws), and the port-table invariant survives. Correspondence: random histories of runs, steps, flag changes, breakpoint edits, device additions/removals, MMIO mappings and writes followed by reset; digest, full-memory hash, register map, device dispatch and breakpoint behaviour compared with the model, and the implementation's post-reset state compared with Simulator::new(current flags).",
+        "level_note": BASE_NOTE,
+    },
+    "C31": {
+        "sub": "c31", "functional": False,
+        "status": "partial by nature: known_init and the explicit dependency list are theorems; absence of hidden runtime inputs is a paired-run test",
+        "assumptions": ["the Unseeded strategy is excluded (as in the property)"],
+        "level_text": "Theorems (Props/C31.lean): with Known{v} every register and every memory word outside the OS image and the I/O page is (v, uninitialised), the I/O page is initialised zero; the model's history is a function of exactly flags, filler stream, OS image, MCR and the set-up (program, device state incl. keyboard bytes, timer sample streams, scripted interrupts, lock flags) - no model function has any other argument. The part no Lean model can carry - that the Rust runtime has no further hidden input (hash iteration order, rand::random, addresses, time) - is tested, not proved: each generated configuration (Seeded and Known initialisation, seeded timer, keyboard input) is run twice in independent interpreters and every op's digest must be identical; run 1 is also compared with the model (the seeded memory image is dumped to it).",
+        "level_note": BASE_NOTE + "Partial: reproducibility of the implementation is established by the paired runs of this check, a test.",
+    },
 }
